@@ -160,6 +160,7 @@ func runFaults(o opts, out *Output) {
 	r := NewRng(o.seed)
 	stats := map[string]int{}
 	seq := 0
+	var relabelCases []string
 	var cq strings.Builder
 	cq.WriteString("Definition fault_cases : list (N * list centry * list payload * N) := [\n")
 	ncq := 0
@@ -370,9 +371,21 @@ func runFaults(o opts, out *Output) {
 			// the main record still travels in the batch when it was merely relabelled
 			relabelledMain := false
 			for _, f := range fl {
-				if f.Kind == "relabel" && f.I == 0 && len(fl) == 1 {
+				if f.Kind == "relabel" && f.I%len(last.ArrowPayloads) == 0 && len(fl) == 1 && f.Ty != int32(last.ArrowPayloads[0].Type) {
 					relabelledMain = true
 				}
+			}
+			if relabelledMain && len(relabelCases) < 600 {
+				// the records of the batch as (label, true type), with the observed outcome, for the relabel-aware dispatch model
+				var rs []string
+				for j, pl := range altered.ArrowPayloads {
+					rs = append(rs, fmt.Sprintf("(%d, %d)", int32(pl.Type), int32(last.ArrowPayloads[j].Type)))
+				}
+				code := map[string]int{"ok": 0, "error": 2, "panic": 3}[res.Class]
+				if res.Class == "ok" && res.Items <= 0 {
+					code = 1
+				}
+				relabelCases = append(relabelCases, fmt.Sprintf(" (%d, [%s], %d)", sig, strings.Join(rs, "; "), code))
 			}
 			if res.Class == "ok" && relabelledMain && res.Items <= 0 {
 				stats["relabelled_main_success_with_nothing"]++
@@ -419,6 +432,20 @@ Definition fault_propfail := Eval vm_compute in failing fault_prop fault_cases.
 Print fault_mismatch.
 Print fault_propfail.
 `)
-	out.Lists = append(out.Lists, "fault_mismatch", "fault_propfail")
+	out.Coq.WriteString("Definition relabel_cases : list (N * list (N * N) * N) := [\n" + strings.Join(relabelCases, ";\n") + "\n].\n")
+	out.Coq.WriteString(`(* the main record of a valid batch sent under every other payload type of the signal: (signal, [(label, true type)], observed).
+   The relabel-aware dispatch (Stream/Consumer.v dispatch3, strict decoders) answers FErr whatever the lenient decoders would say;
+   the property: never success with nothing (observed 1) *)
+Definition relabel_model (c : N * list (N * N) * N) : fres :=
+  let '(signal, rs, _) := c in
+  dispatch3 true signal (map (fun r : N * N => {| r_label := fst r; r_true := snd r; r_wf := true; r_lenient := true |}) rs).
+Definition relabel_mismatch := Eval vm_compute in
+  failing (fun c : N * list (N * N) * N => match relabel_model c with FErr => snd c =? 2 | _ => false end) relabel_cases.
+Definition relabel_propfail := Eval vm_compute in failing (fun c : N * list (N * N) * N => negb (snd c =? 1) && negb (snd c =? 3)) relabel_cases.
+Print relabel_mismatch.
+Print relabel_propfail.
+`)
+	stats["relabel_cases"] = len(relabelCases)
+	out.Lists = append(out.Lists, "fault_mismatch", "fault_propfail", "relabel_mismatch", "relabel_propfail")
 	out.Extra["stats"] = stats
 }
